@@ -9,6 +9,7 @@ import (
 	"sort"
 	"strings"
 
+	"go/constant"
 	"go/token"
 	"go/types"
 
@@ -145,7 +146,7 @@ func configSinks(c *Ctx, rule string) []sinkResult {
 			if flds == nil {
 				continue // e.g. the monitor-mode literal is handled by R-C02-4
 			}
-			if flds["MaxInterval"] == nil {
+			if flds["MaxInterval"] == nil || monitorPath(p) {
 				continue
 			}
 			for i, sp := range specs {
@@ -273,7 +274,7 @@ func c02Glue(c *Ctx) {
 	done := map[string]bool{}
 	for _, p := range successPaths(c, "R-C02-1", pi, nil) {
 		flds := raHeader(p.Results[0])
-		if flds == nil || flds["MaxInterval"] == nil {
+		if flds == nil || flds["MaxInterval"] == nil || monitorPath(p) {
 			continue
 		}
 		maxV := flds["MaxInterval"]
@@ -1165,6 +1166,9 @@ func c02Totality(c *Ctx) {
 							continue
 						}
 					}
+					if boundedIndex(fn, x) {
+						continue // for i := k; i < len(s); i++ { s[i] }
+					}
 					c.R.Fail("R-C02-5", name+":index", name, c.pos(x.Pos()), "index expression on a user-sized slice", "no indexing outside range loops", "an empty list can crash the parser")
 				case *ssa.BinOp:
 					if (x.Op == token.QUO || x.Op == token.REM) && isIntType(x.Type()) {
@@ -1275,4 +1279,55 @@ func inlineHelpers(c *Ctx) map[*ssa.Function]bool {
 		}
 	}
 	return out
+}
+
+// boundedIndex reports whether the index of s[i] is a loop counter that starts
+// at a non-negative constant, only grows, and is tested `i < len(s)` on every
+// way to the access (the classic index loop; range loops have their own form).
+func boundedIndex(fn *ssa.Function, x *ssa.IndexAddr) bool {
+	ph, ok := x.Index.(*ssa.Phi)
+	if !ok {
+		return false
+	}
+	for i, pred := range ph.Block().Preds {
+		e := ph.Edges[i]
+		if ph.Block().Dominates(pred) {
+			// back edge: i + positive constant
+			bo, ok := e.(*ssa.BinOp)
+			if !ok || bo.Op != token.ADD || bo.X != ssa.Value(ph) {
+				return false
+			}
+			k, ok := bo.Y.(*ssa.Const)
+			if !ok || k.Value == nil || constant.Sign(k.Value) <= 0 {
+				return false
+			}
+			continue
+		}
+		k, ok := e.(*ssa.Const)
+		if !ok || k.Value == nil || constant.Sign(k.Value) < 0 {
+			return false
+		}
+	}
+	g := an.Info(fn).Guard(x.Block())
+	if len(g) == 0 {
+		return false
+	}
+	for _, conj := range g {
+		found := false
+		for _, a := range conj {
+			bo, ok := a.Cond.(*ssa.BinOp)
+			if !ok || !a.Pos || bo.Op != token.LSS || bo.X != ssa.Value(ph) {
+				continue
+			}
+			if call, ok := bo.Y.(*ssa.Call); ok {
+				if b, ok := call.Call.Value.(*ssa.Builtin); ok && b.Name() == "len" && len(call.Call.Args) == 1 && call.Call.Args[0] == x.X {
+					found = true
+				}
+			}
+		}
+		if !found {
+			return false
+		}
+	}
+	return true
 }
